@@ -14,6 +14,7 @@ TB = [
     "Bloom filters (Nodegraph) are abstracted to the set they answer 'present' on; SBT theorems assume the container invariant Cover (filter superset of the hashes below, 1 <= min_n_below <= size of every non-empty leaf below), which C13 proves of real trees; the real tree shape / false positives are exercised on the implementation side only (the model builds its own d-ary tree over the same leaves; by sbt_walk_eq_brute the plain results agree as multisets)",
     "command-line tier: `sourmash search` / `sourmash prefetch` are run through the real entry point (sourmash.__main__.main(argv), argparse included) inside the adapter process, on database files written for the case; they are NOT modelled in Lean: the oracle compares every CSV row, the --save-matches / --save-matching-hashes / --save-unmatched-hashes files and the number of displayed matches with brute force, and the adapter's in-process API answer on the same files with the CSV",
     "float(text) of a decimal threshold is taken to be correctly rounded (CPython's float()); threshold_decimal_exact then makes the float test the rational test for every decimal of <= 15 digits and sketch sizes with c*b < 2^51",
+    "peripheral surface (adapter side, not modelled): one modelled operation is spelled through several routes chosen by a per-case counter the model does not see (constructor / repeated insert / load from file; load_file_as_index or the class loader; select() first or not; search() / find() with the search object / search_sbt_index; prefetch() with or without its keyword / find(); absolute or relative paths; --linear / --no-linear; --save-matches to .sig / .zip / directory / .sig.gz; --no-fail-on-empty-database; --md5 query selection); after each operation the adapter asserts that the views of a container agree (len, bool, signatures, signatures_with_location, location, manifest rows, peek vs best_containment, search_abund vs its own threshold-0 list and an independent angular similarity) and re-verifies EVERY result object handed out earlier in the case; a disagreement is reported as `viewfail` and is a violation by itself",
     "sqlite3, zipfile, json, csv, the file system; LCA/SQLite candidate order (Counter.most_common / ORDER BY ties) is not modelled: results are compared as multisets, best-only results as 'sub-multiset containing every maximal element'",
 ]
 AS = [
@@ -22,6 +23,8 @@ AS = [
     "the indexed containers (SBT, LCA_Database, SqliteIndex) are queried as the command line does: select(ksize, moltype, num, scaled, containment) first -- that is where their refusals are documented; list-like containers are queried directly",
     "exact duplicates (same name and same hashes twice) only in the in-memory containers: what a file format stores is C10's subject; mixtures of num and scaled sketches in one list are left to C12 (select)",
     "`sourmash search` (Jaccard) aborts with ValueError('varN <0.0!') from the ANI estimate on some small sketches: finding D16 of C17 reaching the command line; those runs are skipped and counted (coverage.oracle_stats.cli_skipped)",
+    "a zip collection opened WITHOUT its manifest (zipnm) is only used when all members have distinct hash content: members with the same md5 are stored as <md5>.sig.gz_N and the manifest-less reader only sees names ending in .sig/.sig.gz (what a container stores is C10's subject; noted for C10)",
+    "the `prefetch` CSV carries no location (match_filename is the signature's own filename field); locations of prefetch results are checked through the API only",
     "RevIndex is not in this build (sourmash.index.revindex needs the symbol revindex_free, absent from the library built from /repo)",
     "errors on an EMPTY indexed database (SBT.select: StopIteration; SqliteIndex.find: TypeError) are not documented refusals; they cannot hide a match (the answer is necessarily empty) and are accepted and counted (coverage.loud_but_empty)",
 ]
@@ -38,7 +41,7 @@ RULE = ("one case = 0..25 sketches (shared core of hashes placed on / next to th
         "and runs `sourmash search` (--containment / --max-containment / --best-only / --threshold as decimal TEXT: repr of an occurring score = exact tie, "
         "its 3-digit rounding, 0.08, ... / -n / --ignore-abundance / -o / --save-matches) and `sourmash prefetch` (--threshold-bp on, half a bp and one bp "
         "around occurring overlaps, -o, --save-matches, --save-unmatched-hashes, --save-matching-hashes). The oracle compares thresholds as the code does "
-        "(binary64 `score >= threshold`); exact ties are generated on purpose (coverage.oracle_stats.tie_threshold_ops)")
+        "(binary64 `score >= threshold`); exact ties are generated on purpose (coverage.oracle_stats.tie_threshold_ops). Further: LCA_SqliteDatabase (lcasql) and a manifest-less zip (zipnm) as containers; `insert` ops in the middle of a history (in place where the container allows it, else rebuilt) after which every earlier result is re-verified; StandaloneManifestIndex files that also hold a sketch the manifest does not list; pathlist and lca.sqldb databases and num sketches on the command line; CLI databases where every sketch tracks abundances (the abundance-weighted search, checked against an independent angular similarity; sketches with the same hashes but different abundances generated on purpose); every CSV row is checked for name, md5, score, LOCATION and query fields, the -n display count, --save-matches contents, and the command is repeated one time in four")
 
 
 def extra(chk, pkg):
